@@ -60,6 +60,7 @@ class FSum:
         self.pending = frozenset()      # kinds announced whose effect may not have happened at exit
         self.r1 = []
         self.e2 = []
+        self.e5 = []
 
     def sig(self):
         return (self.writes, self.notifies, self.must, self.unannounced, self.pending)
@@ -253,7 +254,7 @@ class TypeState:
         clone_fam = is_clone_family(func)
         follow = _prune(fe, nones)
         refusable = M.refusable
-        r1, e2, unann = [], [], set()
+        r1, e2, unann, e5 = [], [], set(), []
         all_writes, all_not = set(), set()
 
         def spec_of(ev):
@@ -273,8 +274,18 @@ class TypeState:
                     e = e.func
             return False
 
+        def elem_of(ev):
+            """text of the element a relation write concerns (added / removed element, owner of the back-pointer, new top)"""
+            if ev.field in ("_libraries", "_definitions", "_ports", "_cables", "_children", "_wires") or (ev.cls == "Wire" and ev.field == "_pins"):
+                return norm(ev.elem) if ev.elem is not None and ev.op in ("append", "insert", "remove", "add", "discard") else None
+            if ev.field in ("_netlist", "_library", "_definition", "_parent", "_port", "_cable", "_wire"):
+                return norm(ev.recv)
+            if ev.field == "_top_instance":
+                return norm(ev.value) if ev.value is not None else None
+            return None
+
         def step(n, st, record):
-            dirty, pend, maynot, must = st
+            dirty, pend, maynot, must, margs = st
             for ev in fe.by_node[n.id]:
                 if ev.kind == "check":
                     if record:
@@ -290,6 +301,7 @@ class TypeState:
                     if not ev.event.startswith("create_"):
                         pend = pend | {ev.event}
                     must = must | {ev.event}
+                    margs = margs | {(ev.event, tuple(norm(a) for a in ev.args))}
                 elif ev.kind == "write":
                     sp = spec_of(ev)
                     all_writes.add((sp, ev.cls, ev.field, ev.op))
@@ -298,6 +310,11 @@ class TypeState:
                         pend = pend - ann
                     if sp != "fresh":
                         dirty = dirty | {(ev.cls, ev.field, ev.op, short(ev.stmt, 70))}
+                        if record and ann and not clone_fam:
+                            el = elem_of(ev)
+                            here = [(k, a) for (k, a) in margs if k in ann]
+                            if el is not None and here and not any(el in a for (k, a) in here):
+                                e5.append((ev, el, sorted(here)))
                         if record:
                             why = None
                             if ev.cls is None and ev.field in ("_pins",):
@@ -349,12 +366,12 @@ class TypeState:
                         maynot = maynot | cs.notifies
                         pend = pend | cs.pending
                         must = must | cs.must
-            return (dirty, pend, maynot, must)
+            return (dirty, pend, maynot, must, margs)
 
         def join(a, b):
-            return (a[0] | b[0], a[1] | b[1], a[2] | b[2], a[3] & b[3])
+            return (a[0] | b[0], a[1] | b[1], a[2] | b[2], a[3] & b[3], a[4] & b[4])
 
-        init = (frozenset(), frozenset(), frozenset(), frozenset())
+        init = (frozenset(), frozenset(), frozenset(), frozenset(), frozenset())
         state = forward(fe.cfg, init, lambda n, st: step(n, st, False), join, follow=follow)
         for n in fe.cfg.nodes:
             if n.id in state:
@@ -367,6 +384,7 @@ class TypeState:
         out.unannounced = frozenset(unann)
         out.r1 = r1
         out.e2 = e2
+        out.e5 = e5
 
 
 def is_public_entry(func):
